@@ -57,7 +57,7 @@ static bool case_from_json(const J& j, Case& c) {
 	return true;
 }
 
-static int g_eye_mode = 1; // 0: no eye-data configuration, 1: eye data checked in memory only, 2: also saved
+static int g_eye_mode = 2; // 0: no eye-data configuration, 1: eye data checked in memory only, 2: also saved
 static void finish_spec(Spec& sp) {
 	sp.nbones = sp.skinned ? 3 : 0;
 }
@@ -269,7 +269,7 @@ static uint64_t run_case(const Case& c, Base& base, Stats& st) {
 
 		// save raw, reload, same geometry: a function of the state, evaluated once per distinct state of a construction
 		if (!fresh_state && !c.file && !g_check_all_steps) return h;
-		// Saving any BSTriShape that carries eye data runs into an int shift by 36 in VertexDesc::SetAttributeOffset
+		// (--eye 1) Before its repair, saving any BSTriShape that carries eye data ran into an int shift by 36 in VertexDesc::SetAttributeOffset
 		// (VertexData.hpp) whether or not vertices were deleted; the eye-data configuration is checked in memory.
 		if (!c.file && c.spec.eye && g_eye_mode < 2) { st.add("reload_skipped_eye_data"); return h; }
 		std::string bytes = save_raw(nif);
@@ -428,7 +428,7 @@ int main(int argc, char** argv) {
 		return 0;
 	}
 	const bool thorough = A.thorough();
-	g_eye_mode = (int) A.geti("eye", 1);
+	g_eye_mode = (int) A.geti("eye", 2); // 2 since the shift in VertexDesc::SetAttributeOffset was repaired (eye data can be saved)
 	const int vmax = (int) A.geti("vmax", thorough ? 6 : 5);
 	const int vmax_reloaded = (int) A.geti("vmaxreloaded", 5);
 	const bool with_files = A.geti("files", 1) != 0, with_built = A.geti("built", 1) != 0;
@@ -505,7 +505,7 @@ int main(int argc, char** argv) {
 		}, top);
 
 	top.set_info("rule",
-		vf::strf("constructed shapes: %zu configurations (geometry kind x game x skinned/static x LOCKEDNORM yes/no, plus one SSE BSTriShape with eye data checked in memory only) "
+		vf::strf("constructed shapes: %zu configurations (geometry kind x game x skinned/static x LOCKEDNORM yes/no, plus one SSE BSTriShape with eye data, partitions with one per-vertex table, Oblivion shapes with three UV sets) "
 				 "x origin {built through the API (V<=%d), built+saved+reloaded (V<=%d%s)} "
 				 "x V in 3..%d vertices x every subset of the triangle pool below V (1/2/4/6 triangles; strip kinds: every subset of 3/4 strips) "
 				 "x every non-empty sorted subset S1 of the vertices x (stop | every non-empty subset S2 of the remainder); "
